@@ -18,11 +18,64 @@ REPO = os.environ.get('VERIF_REPO', '/repo')
 TARGET = os.path.join(ROOT, '.cache', 'kani-target')
 
 
-def make_scratch():
+_PENDING = {}
+
+
+def _hash_tree(d):
+    import hashlib
+    out = {}
+    for root, dirs, files in os.walk(d):
+        dirs[:] = [x for x in dirs if x not in ('target', '.git', 'node_modules', 'packages')]
+        for fn in files:
+            p = os.path.join(root, fn)
+            try:
+                with open(p, 'rb') as f:
+                    out[os.path.relpath(p, d)] = hashlib.sha1(f.read()).hexdigest()
+            except OSError:
+                pass
+    return out
+
+
+def make_scratch(cache=None):
+    """rsync /repo into a fresh temp dir (see refresh_for for why the content hashes are taken)."""
     d = tempfile.mkdtemp(prefix='harper-kani-')
     subprocess.run(['rsync', '-a', '--exclude', 'target', '--exclude', '.git', '--exclude', 'packages', '--exclude', 'node_modules',
                     '--exclude', 'rust-toolchain.toml', REPO.rstrip('/') + '/', d + '/'], check=True)
+    _PENDING[d] = _hash_tree(d)
     return d
+
+
+def refresh_for(d, cache, key):
+    """cargo decides freshness by comparing source mtimes with the time of the last build in the shared target dir, and it
+    records workspace-RELATIVE paths - so a file whose content changed but whose mtime is old (a tree restored from an
+    archive, `cp -p`, ...) would be served from a stale artifact. Before building crate `key` from scratch dir d, every file
+    whose content differs from the manifest of the last SUCCESSFUL build of that crate in that target dir gets mtime = now."""
+    cur = _PENDING.get(d)
+    if cur is None:
+        return
+    try:
+        prev = json.load(open(os.path.join(cache, f'src-manifest-{key}.json')))
+    except Exception:
+        prev = {}
+    now = time.time()
+    for rel, h in cur.items():
+        if prev.get(rel) != h:
+            try:
+                os.utime(os.path.join(d, rel), (now, now))
+            except OSError:
+                pass
+
+
+def commit_for(d, cache, key):
+    """after a successful build of crate `key` from scratch dir d: its artifacts now correspond to these sources"""
+    cur = _PENDING.get(d)
+    if cur is None:
+        return
+    try:
+        os.makedirs(cache, exist_ok=True)
+        json.dump(cur, open(os.path.join(cache, f'src-manifest-{key}.json'), 'w'))
+    except Exception:
+        pass
 
 
 def overlay(scratch, files):
@@ -128,6 +181,7 @@ def run_harnesses(pid, names, out, tier):
         for crate, group in by_crate.items():
             full = [f'{h["modpath"]}::{h["harness"]}' for _, h in group]
             tmo = max(h.get('timeout', 600) for _, h in group)
+            refresh_for(scratch, TARGET, crate)
             cmd, rc, text, wall = run_group(crate, full, scratch, jobs=min(4, len(group)), timeout=tmo)
             out.cmds.append('(overlay of /repo) ' + ' '.join(cmd))
             os.makedirs(os.path.join(ROOT, '.cache'), exist_ok=True)
@@ -137,6 +191,7 @@ def run_harnesses(pid, names, out, tier):
             if not res:
                 out.undecided.append(f'kani produced no harness results for {crate} (build failure?): ' + text[-1500:])
                 continue
+            commit_for(scratch, TARGET, crate)
             for n, h in group:
                 r = res.get(h['harness'])
                 oid = f'kani:{n}'
